@@ -127,6 +127,11 @@ def run_property(pid: str, ctx: Ctx) -> core.Report:
         report.extra['skipped_rules'] = [{'rule': a, 'reason': b} for a, b in skipped]
         for a, b in skipped:
             print(f'SKIPPED-RULE property={pid} rule={a} reason={b[:300]}')
+        # instances of one rule are sometimes recorded by the section of another: with sections left out, instance floors say nothing
+        for r in report.rules:
+            if r.floor is not None and r.instances < r.floor:
+                r.note(f'{r.instances} instance(s), below the floor of {r.floor}: not enforced because rules of this pack were skipped on this tree')
+                r.floor = None
     for r in report.rules:
         r.check_floor()
     return report
